@@ -176,7 +176,7 @@ def all_cases(tier):
     cases = []
     for n, L, x0 in itertools.product(NCELL, LENGTHS, X0S):
         cases.append({"ctor": "uni", "ncell": n, "length": L, "x0": x0})
-    ratios = [0.5, 1.0, 2.0, 3.0, 10.0] + ([0.1, 1.5] if tier == "thorough" else [])
+    ratios = [0.5, 1.0, 2.0, 3.0, 10.0, 0.25, 0.1] + ([1.5, 0.01] if tier == "thorough" else [])
     props = [(1, 1), (0.5, 1), (2, 1), (1, 3), (1, 2)] + ([(3, 1), (1, 5)] if tier == "thorough" else [])
     for n, L, r, (a, b) in itertools.product(NCELL + ([24, 60] if tier == "thorough" else []), LENGTHS, ratios, props):
         cases.append({"ctor": "ref", "ncell": n, "length": L, "ratio": r, "a": a, "b": b})
